@@ -56,20 +56,23 @@ type FnVerifier struct {
 	allocN   int
 	covers   []*Obligation
 
-	siteN      map[string]int
-	loopsFound map[int]bool
-	loopMods   map[string][]string
-	loopSeen   map[string]*loopInfo
-	dry        bool
-	rootVars   map[string]TV
-	pending    []*pendingObl
-	ceils      map[string]Term
-	rec        map[string]bool // when non-nil, arr()/ghost() record the arrays they are asked for
-	opqDeps    map[string][]string
-	opqDone    map[string]bool
+	siteN       map[string]int
+	loopsFound  map[int]bool
+	loopMods    map[string][]string
+	loopSeen    map[string]*loopInfo
+	dry         bool
+	rootVars    map[string]TV
+	pending     []*pendingObl
+	ceils       map[string]Term
+	rec         map[string]bool // when non-nil, arr()/ghost() record the arrays they are asked for
+	opqDeps     map[string][]string
+	opqDone     map[string]bool
+	opqBusy     map[string]bool
+	localRefs   []Term
+	fnTerms     map[string]*ssa.Function
 	siteSeen    map[string]int
 	assertSites map[int]bool
-	oblEnv     *TEnv // environment of the clause being turned into an obligation (for known-finding classes)
+	oblEnv      *TEnv // environment of the clause being turned into an obligation (for known-finding classes)
 }
 
 // frame is the execution of one function body (root or inlined).
@@ -95,6 +98,7 @@ type frame struct {
 	curBlock *ssa.BasicBlock
 	curIdx   int
 	siteOrd  map[token.Pos]int
+	stkMemo  map[*ssa.Alloc]bool
 }
 
 type exit struct {
@@ -112,20 +116,20 @@ type debugRef struct {
 }
 
 type loopInfo struct {
-	header   *ssa.BasicBlock
-	body     map[*ssa.BasicBlock]bool
-	ord      int
-	spec     *LoopSpec
-	preState *State
-	preReach Term
-	phiVals  map[*ssa.Phi]Val // havocked values
-	decAt    Term
-	hasDec   bool
-	preNow   Term
-	modArrs  []string
-	locs     []modLoc
+	header    *ssa.BasicBlock
+	body      map[*ssa.BasicBlock]bool
+	ord       int
+	spec      *LoopSpec
+	preState  *State
+	preReach  Term
+	phiVals   map[*ssa.Phi]Val // havocked values
+	decAt     Term
+	hasDec    bool
+	preNow    Term
+	modArrs   []string
+	locs      []modLoc
 	entryPhis map[*ssa.Phi]Val
-	edges    int
+	edges     int
 }
 
 func (v *FnVerifier) note(format string, args ...interface{}) {
@@ -725,6 +729,25 @@ func (v *FnVerifier) mergeStates(conds []Term, states []*State) *State {
 		}
 	}
 	out.now = v.ctx.Define("now", now)
+	// stack structs: merge by value (only those known on every incoming edge)
+	if len(states[0].stk) > 0 {
+		out.stk = map[*ssa.Alloc]Val{}
+		for a, last := range states[len(states)-1].stk {
+			acc := last
+			okAll := true
+			for i := len(states) - 2; i >= 0; i-- {
+				x, ok := states[i].stk[a]
+				if !ok {
+					okAll = false
+					break
+				}
+				acc = v.mergeVal(conds[i], x, acc)
+			}
+			if okAll {
+				out.stk[a] = acc
+			}
+		}
+	}
 	return out
 }
 
@@ -757,6 +780,17 @@ func (f *frame) run(st *State, reach Term) {
 
 func (f *frame) collectDebug() {
 	f.debug = map[*ssa.BasicBlock][]debugRef{}
+	// variables that live in an Alloc: every mention of them means the Alloc's current content
+	home := map[types.Object]*ssa.Alloc{}
+	for _, b := range f.fn.Blocks {
+		for _, in := range b.Instrs {
+			if d, ok := in.(*ssa.DebugRef); ok && d.X != nil && d.IsAddr && d.Object() != nil {
+				if a, isA := d.X.(*ssa.Alloc); isA {
+					home[d.Object()] = a
+				}
+			}
+		}
+	}
 	for _, b := range f.fn.Blocks {
 		for i, in := range b.Instrs {
 			if d, ok := in.(*ssa.DebugRef); ok && d.X != nil {
@@ -764,6 +798,10 @@ func (f *frame) collectDebug() {
 					continue // a field name in a selector, not a variable
 				}
 				if name, ok := identOf(d.Expr); ok {
+					if a, lives := home[d.Object()]; lives && !d.IsAddr {
+						f.debug[b] = append(f.debug[b], debugRef{name: name, val: a, isAddr: true, idx: i})
+						continue
+					}
 					f.debug[b] = append(f.debug[b], debugRef{name: name, val: d.X, isAddr: d.IsAddr, idx: i})
 				}
 			}
@@ -887,7 +925,12 @@ func (f *frame) val(x ssa.Value) Val {
 		v.ctx.Assert(T(SBool, "(and (< (birth %s) %s) (not (= %s null)))", g.S, v.now0.S, g.S))
 		return g
 	case *ssa.Function:
-		return v.ctx.Const("func:"+c.String(), SFn)
+		t := v.ctx.Const("func:"+c.String(), SFn)
+		if v.fnTerms == nil {
+			v.fnTerms = map[string]*ssa.Function{}
+		}
+		v.fnTerms[t.S] = c
+		return t
 	case *ssa.Builtin:
 		unsupp("builtin %s used as value", c.Name())
 	case *ssa.FreeVar:
